@@ -878,6 +878,11 @@ func main() {
 		for i, c := range xc {
 			res.Count("expander-"+c.kind, c.text(), xo[i] != "PANIC")
 			got := strings.SplitN(mo[i], " ", 3)[2]
+			// the property's own predicate on the implementation: agreement with RFC 9380 section 5.3
+			// (independent transcription on Go's standard hashes)
+			if ref := refExpand(c); ref != xo[i] {
+				res.Mismatch(vh.Mismatch{ID: fmt.Sprintf("XR%d", i), Kind: "prop", Key: "expander-rfc-" + c.kind, Detail: fmt.Sprintf("implementation %s RFC 9380 expand_message (harness transcription, Go stdlib hashes) %s", trunc(xo[i]), trunc(ref)), Case: "X " + c.text(), PropFail: true, What: "RFC 9380 expand_message agreement (C19_generated_expanders_are_rfc9380 + skeleton)"})
+			}
 			if got != xo[i] {
 				ref := refExpand(c)
 				res.Mismatch(vh.Mismatch{ID: fmt.Sprintf("X%d", i), Kind: "corr", Key: "expander", Detail: fmt.Sprintf("implementation %s model %s RFC-9380 reference (harness, Go stdlib hashes) %s", trunc(xo[i]), trunc(got), trunc(ref)), Case: "X " + c.text(), PropFail: ref != xo[i], What: "correspondence expand_message (model/H2c.v) with recorded hash table"})
@@ -948,6 +953,15 @@ func main() {
 			}
 		}
 	}
+	// 5. executable model of hash_to_field / hash_to_curve (k256, p256, BLS12-381 G1)
+	nM := 12
+	if a.Tier == "thorough" {
+		nM = 400
+	}
+	if a.Search {
+		nM = 60
+	}
+	runH2cModel(a, res, corpusDir, nM)
 	res.Write(a.Out)
 }
 
